@@ -42,9 +42,20 @@ Commands == <<
   C("select", <<"CDS", "gene">>, "phix", <<Perm, Pos(2, "source")>>),
   C("infix", <<"^+10", "{file:part}">>, "guest", <<Flag("-e"), Pos(1, "^+20"), Pos(2, "{file:ecoli}"), In("guest2"), Fmt, Ext(".fasta")>>),
   C("insert", <<"^+10", "@acgtacgt">>, "phix", <<Flag("-e"), Pos(1, "^+20"), Pos(2, "@ggccggcc"), In("part"), Fmt, Ext(".fasta")>>),
+  \* secondary / primary inputs with identical residues but different annotation
+  C("insert", <<"^+10", "{file:part}">>, "phix", <<Pos(2, "{file:partB}"), Pos(2, "{file:partC}")>>),
+  C("infix", <<"^+10", "{file:part}">>, "guest", <<Pos(2, "{file:partB}"), Pos(2, "{file:partC}")>>),
+  C("reverse", <<>>, "part", <<In("partB"), In("partC")>>),
+  C("query", <<>>, "part", <<In("partB"), In("partC")>>),
+  \* separators / delimiters of several bytes that share their first byte (U+00A6, U+00B7), on a record whose
+  \* feature carries two values of one qualifier
+  C("query", <<"-n", "note">>, "partD", <<Val2("-t", "{byte:c2}{byte:a6}", "{byte:c2}{byte:b7}"), Val2("-d", "{byte:c2}{byte:a6}", "{byte:c2}{byte:b7}"),
+                                         Val2("-t", "ab", "ac"), Val2("-d", "ab", "ac")>>),
   C("join", <<>>, "two", <<Flag("-c"), In("phix"), Fmt, Ext(".fasta")>>),
   C("pick", <<"1">>, "two", <<Flag("-f"), Pos(1, "2"), In("phix"), Fmt, Ext(".fasta")>>),
   C("query", <<>>, "phix", <<Val("-n", "gene"), Val2("-n", "gene", "product"), Val("-d", ";"), Val2("-d", ";", ":"), Val("-t", "|"), Val2("-t", "|", "+"),
+                             \* separators / delimiters of several bytes that share their first byte (U+00A6, U+00B7)
+
                              Args2(<<"--empty", "-n", "gene", "-n", "product">>, <<"--empty", "-n", "gene product">>), Flag("-H"), Flag("--source"), Flag("-I"),
                              Flag("-K"), Flag("-L"), Flag("--empty"), In("part")>>),
   C("repair", <<>>, "phix", <<In("part"), Fmt, Ext(".fasta")>>),
